@@ -58,14 +58,33 @@ def harness_bin(name, profile="release"):
     return os.path.join(HARNESS, "target", profile, name)
 
 
-def run_translators():
-    """Regenerate lean/Marwood/Gen/*.lean from /repo; write only on change. Returns (ok, log)."""
+# translator script -> the generated Lean module it maintains
+TRANSLATOR_MODULES = {
+    "tables.py": "Marwood.Gen.Tables",
+    "builtins.py": "Marwood.Gen.Builtins",
+    "prelude.py": "Marwood.Gen.Prelude",
+    "prelude_procs.py": "Marwood.Gen.PreludeProcs",
+}
+
+
+def run_translators(module=None):
+    """Regenerate lean/Marwood/Gen/*.lean from the repository; write only on change. Returns (ok, log).
+    All translators run (they are cheap and keep the shared Lean tree current), but a translator that fails is
+    a broken tie only for a property whose proof module imports, directly or transitively, the file it
+    maintains: with `module` given, failures of the other translators are logged and do not fail the run."""
     tdir = os.path.join(VERIF, "translate")
+    needed = set(lean_files_of(module)) if module else None
     logs, ok = [], True
     for script in sorted(glob.glob(os.path.join(tdir, "*.py"))):
         r = sh([sys.executable, script])
         logs.append(r.stdout + r.stderr)
-        ok = ok and r.returncode == 0
+        if r.returncode != 0:
+            gen = TRANSLATOR_MODULES.get(os.path.basename(script))
+            if needed is None or gen is None or gen in needed:
+                ok = False
+            else:
+                logs.append("(translator %s failed; %s is not imported by %s: not part of this property's tie)"
+                            % (os.path.basename(script), gen, module))
     return ok, "\n".join(logs)
 
 
@@ -399,7 +418,7 @@ def standard_run(ctx, module, theorems, bins, streams_fn, rule, trusted_extra=No
     ok, log = build_harness(bins, profile)
     if not ok:
         report_broken(ctx, "harness-build", log[-3000:])
-    tok, tlog = run_translators()
+    tok, tlog = run_translators(module)
     if not tok:
         report_broken(ctx, "translator", tlog[-3000:])
     broken, blog = check_proofs(ctx, module, theorems)
